@@ -789,6 +789,11 @@ class B(object):
             text = text.format(n=n)
             self.bind(ctx, [n])
         self.features.add('import:' + text.split()[0] + ('-as' if ' as ' in text else '') + ('-dotted' if '.' in text.split()[1] and text.startswith('import') else '') + ('-relative' if text.startswith('from .') else ''))
+        if bound is not None and self.chance(60):
+            # names outside the pool (os, fx_pkg, fsub ...) are read right here: through the dotted path for `import a.b`
+            dotted = text.split()[1] if text.startswith('import') and ' as ' not in text else bound[0]
+            self.features.add('import-read-in-place')
+            return [ind + text, ind + 'use(%s)' % (dotted if self.chance(70) else bound[0])]
         return [ind + text]
 
     def s_star(self, ctx, ind, depth):
